@@ -1,7 +1,518 @@
 package main
 
-import "golang.org/x/tools/go/ssa"
+// Dischargers for panic obligations that rest on a named invariant checked on the same run
+// (INV-NT, INV-LEX, INV-EXPR/VAL-AGREE, INV-RANGE-TEXT, INV-PH), on entry-rooted type flow, or on
+// the small explicit assumption table.
+
+import (
+	"fmt"
+	"go/types"
+	"strings"
+
+	"golang.org/x/tools/go/ssa"
+)
+
+// invariant runs the rules that establish a named invariant on a scratch report.
+func (c *Ctx) invariant(name string, rules ...ruleFn) (bool, string) {
+	memo := "inv:" + name
+	type res struct {
+		ok  bool
+		why string
+	}
+	if v, ok := c.roles[memo]; ok {
+		return v.(res).ok, v.(res).why
+	}
+	sr := newReport("__inv", "quick", 0, "/nonexistent")
+	for _, rf := range rules {
+		rf(c, sr)
+	}
+	out := res{ok: true}
+	for _, o := range sr.Obs {
+		if o.Status == Violated {
+			out.ok = false
+			out.why = o.Key + ": " + o.Detail
+			break
+		}
+	}
+	c.roles[memo] = out
+	return out.ok, out.why
+}
+
+func (c *Ctx) invNT() (bool, string)  { return c.invariant("INV-NT", ruleREDBAL, rulePARPUSH) }
+func (c *Ctx) invLEX() (bool, string) { return c.invariant("INV-LEX", ruleLEXWRITE, ruleLEXDEPTH, ruleLEXTOK) }
+func (c *Ctx) invPH() (bool, string)  { return c.invariant("INV-PH", rulePHLINEARcore) }
+
+// assumption table: construct key (function|construct) -> reason. Each entry is a dead or
+// foreign-only path, reviewed by hand.
+var assumedSites = map[string]string{
+	"expr.Expr|$2[0].(float64)": "guarded by isFloat(right[0]); the only module caller passing Boost is BOOST(e, ...float64), so float32 can only come from foreign callers of the exported constructor (outside the quantifier)",
+	"expr.Expr|$2[0].(int)":     "guarded by isInt(right[0]); the only module caller passing Fuzzy is FUZZY(e, ...int), so the other integer kinds can only come from foreign callers of the exported constructor",
+}
 
 func (c *Ctx) panicDischargers(r *Report, reach map[*ssa.Function]bool) []panicDischarger {
-	return nil
+	pr := c.parserRoles()
+	lr := c.lexRoles()
+	dr := c.driverRoles()
+	pt := c.pgTable()
+	rops := c.rendererOps()
+	var rangeFn *ssa.Function
+	if pt.Err == "" {
+		if e := pt.Eff["expr.Range"]; e != nil {
+			rangeFn = e.Fn
+		}
+	}
+	isLexMethod := func(f *ssa.Function) bool {
+		if lr.Err != "" || f.Signature.Recv() == nil {
+			return false
+		}
+		t := f.Signature.Recv().Type()
+		if p, ok := t.(*types.Pointer); ok {
+			t = p.Elem()
+		}
+		return types.Identical(t, lr.Lexer)
+	}
+	return []panicDischarger{
+		// INV-NT
+		func(c *Ctx, r *Report, s *panicSite, atoms []Atom) (string, bool) {
+			if pr.Err != "" {
+				return "", false
+			}
+			isNTtop := s.fn == pr.ShouldShift && s.kind == "idx" && strings.HasSuffix(s.key, "."+pr.NTF.Name()+"[(len($0."+pr.NTF.Name()+") - 1)]")
+			isDrop := s.kind == "slice" && isDropHelper(s.fn)
+			if !isNTtop && !isDrop {
+				return "", false
+			}
+			if ok, why := c.invNT(); !ok {
+				r.note("INV-NT does not hold: %s", why)
+				return "", false
+			}
+			return "INV-NT (len(nonTerminals) = 1 + tokens on the stack; established by RED-BAL and PAR-PUSH on this run)", true
+		},
+		// INV-LEX
+		func(c *Ctx, r *Report, s *panicSite, atoms []Atom) (string, bool) {
+			if lr.Err != "" || s.kind != "slice" || !isLexMethod(s.fn) {
+				return "", false
+			}
+			sl := s.in.(*ssa.Slice)
+			recv := c.key(s.fn.Params[0], nil)
+			in, pos, start := recv+"."+lr.InputF.Name(), recv+"."+lr.PosF.Name(), recv+"."+lr.StartF.Name()
+			if c.key(sl.X, nil) != in {
+				return "", false
+			}
+			okBound := func(v ssa.Value) bool {
+				if v == nil {
+					return true
+				}
+				k := c.key(v, nil)
+				return k == pos || k == start || k == "0"
+			}
+			if !okBound(sl.Low) || !okBound(sl.High) {
+				return "", false
+			}
+			// start:pos needs start ≤ pos; pos: needs pos ≤ len — both INV-LEX
+			if sl.Low != nil && sl.High != nil && !(c.key(sl.Low, nil) == start && c.key(sl.High, nil) == pos) && c.key(sl.Low, nil) != "0" {
+				return "", false
+			}
+			if ok, why := c.invLEX(); !ok {
+				r.note("INV-LEX does not hold: %s", why)
+				return "", false
+			}
+			return "INV-LEX (0 ≤ start ≤ pos ≤ len(input); established by LEX-WRITE, LEX-DEPTH and LEX-TOK on this run)", true
+		},
+		// VAL-AGREE: the validator of the same operator establishes what the renderer asserts
+		func(c *Ctx, r *Report, s *panicSite, atoms []Atom) (string, bool) {
+			ops, isRenderer := rops[s.fn]
+			if !isRenderer || s.kind != "assert" {
+				return "", false
+			}
+			ta := s.in.(*ssa.TypeAssert)
+			k := c.key(ta.X, nil)
+			if k != "$0.Left" && k != "$0.Right" {
+				return "", false
+			}
+			want := typeStr(ta.AssertedType)
+			for _, op := range ops {
+				vf := c.validatorFacts(op)
+				if vf.Err != "" {
+					return "", false
+				}
+				implied := vf.all(func(f []Atom) bool {
+					for _, a := range f {
+						if a.Kind == "type" && a.Pos && a.Subj == k && a.Val == want {
+							return true
+						}
+						// helper that proves the slice type (list of leaves)
+						if a.Kind == "call" && a.Pos && a.Val == k && a.Fn != nil && want == "[]*expr.Expression" && c.allElemsLeafPredicate(a.Fn) {
+							return true
+						}
+					}
+					return false
+				})
+				if !implied {
+					return "", false
+				}
+			}
+			return fmt.Sprintf("VAL-AGREE: the validator(s) registered for %v accept only nodes whose %s is %s", ops, strings.TrimPrefix(k, "$0."), want), true
+		},
+		// INV-RANGE-TEXT: right[0], right[len-1], right[1:len-1] in the range functions
+		func(c *Ctx, r *Report, s *panicSite, atoms []Atom) (string, bool) {
+			if s.fn != rangeFn && s.fn != dr.RangeParam || rangeFn == nil {
+				return "", false
+			}
+			if s.key != "$1[0]" && s.key != "$1[(len($1) - 1)]" && s.key != "$1[1:(len($1) - 1)]" {
+				return "", false
+			}
+			// (i) validator: Right is a non-nil *RangeBoundary
+			vf := c.validatorFacts("expr.Range")
+			if vf.Err != "" || !vf.has("$0.Right is *expr.RangeBoundary") || !vf.has("$0.Right.(*expr.RangeBoundary)!=nil") {
+				return "", false
+			}
+			// (ii) the matching serialiser's RangeBoundary success returns have ≥ 2 constant bytes
+			ser := dr.Ser
+			if s.fn == dr.RangeParam {
+				ser = dr.SerParam
+			}
+			rows, _ := c.successSkeletons(ser)
+			n := 0
+			for _, row := range rows {
+				isRB := false
+				for _, a := range row.P.Atoms {
+					if a.Kind == "type" && a.Pos && a.Subj == "$1" && a.Val == "*expr.RangeBoundary" {
+						isRB = true
+					}
+				}
+				if isRB {
+					n++
+					if skelMinLen(row.Skel) < 2 {
+						return "", false
+					}
+				}
+			}
+			if n == 0 {
+				return "", false
+			}
+			return "INV-RANGE-TEXT: the Range validator requires a non-nil *RangeBoundary on the right, whose serialisation has at least 2 constant bytes on every success path", true
+		},
+		// INV-PH: params[0] in the parameterized range function under rawMin == "?" || rawMax == "?"
+		func(c *Ctx, r *Report, s *panicSite, atoms []Atom) (string, bool) {
+			if dr.RangeParam == nil || s.fn != dr.RangeParam || s.key != "$2[0]" {
+				return "", false
+			}
+			// the access must be dominated by a test that one of the ends is the placeholder
+			ph := false
+			for _, f := range c.domFacts(s.in.Block()) {
+				for _, a := range c.atoms(f.Cond, f.Pol, nil) {
+					if a.Kind == "cmp" && a.Val == `"?"` {
+						ph = true
+					}
+				}
+				// `rawMin == "?" || rawMax == "?"`: the block is reached from either true edge; the
+				// dominating If is the first disjunct with pol=false for the second test — accept
+				// when any dominating If in the chain compares with "?"
+				if bo, ok := f.Cond.(*ssa.BinOp); ok {
+					if s2, ok := constStringVal(bo.Y); ok && s2 == "?" {
+						ph = true
+					}
+				}
+			}
+			if !ph {
+				// the block may have two predecessors (the || chain): look at predecessors' conditions
+				for _, p := range s.in.Block().Preds {
+					if iff, ok := p.Instrs[len(p.Instrs)-1].(*ssa.If); ok {
+						if bo, ok := iff.Cond.(*ssa.BinOp); ok {
+							if s2, ok := constStringVal(bo.Y); ok && s2 == "?" {
+								ph = true
+							}
+						}
+					}
+				}
+			}
+			if !ph {
+				return "", false
+			}
+			if ok, why := c.invPH(); !ok {
+				r.note("INV-PH does not hold: %s", why)
+				return "", false
+			}
+			return "INV-PH: a `?` in the serialised range text is always paired with exactly one appended parameter (PH-LINEAR on this run)", true
+		},
+		// PAYLOAD-TYPE: Wild/Regexp payloads are strings
+		func(c *Ctx, r *Report, s *panicSite, atoms []Atom) (string, bool) {
+			if dr.LikeParam == nil || s.fn != dr.LikeParam || s.kind != "assert" || s.key != "$2[0].(string)" {
+				return "", false
+			}
+			vf := c.validatorFacts("expr.Like")
+			if vf.Err != "" {
+				return "", false
+			}
+			likeRight := vf.all(func(f []Atom) bool {
+				return hasAtom(f, "$0.Right is *expr.Expression") && subsetOf(c.possibleOps(f, "$0.Right.(*expr.Expression).Op"), []string{"expr.Wild", "expr.Regexp"})
+			})
+			if !likeRight {
+				return "", false
+			}
+			if ok, why := c.payloadTypeOK(); !ok {
+				r.note("PAYLOAD-TYPE: %s", why)
+				return "", false
+			}
+			if ok, _ := c.invPH(); !ok {
+				return "", false
+			}
+			return "PAYLOAD-TYPE + validateLike + INV-PH: the right side of a LIKE node is a Wild/Regexp leaf, every in-module constructor call of such a leaf passes a string, and a leaf yields exactly one parameter", true
+		},
+		// entry-rooted type flow for the constructor's assertions on its operands
+		func(c *Ctx, r *Report, s *panicSite, atoms []Atom) (string, bool) {
+			general := c.pkgFunc(pkgExpr, "Expr")
+			if s.fn != general || s.kind != "assert" {
+				return "", false
+			}
+			ta := s.in.(*ssa.TypeAssert)
+			want := typeStr(ta.AssertedType)
+			// which operator branch?
+			var opConst string
+			for _, a := range atoms {
+				if a.Kind == "cmp" && a.Subj == "$1" && a.Op == "==" && strings.HasPrefix(a.Val, "expr.") {
+					opConst = a.Val
+				}
+			}
+			if opConst == "" {
+				return "", false
+			}
+			ts, ok := c.ctorArgTypes(general, opConst, ta.X, 0)
+			if !ok || len(ts) == 0 {
+				return "", false
+			}
+			for t := range ts {
+				if t != want {
+					return "", false
+				}
+			}
+			return fmt.Sprintf("entry-rooted type flow: every in-module call of the constructor with operator %s passes a %s in that position", opConst, want), true
+		},
+		// assumption table
+		func(c *Ctx, r *Report, s *panicSite, atoms []Atom) (string, bool) {
+			reason, ok := assumedSites[fnName(s.fn)+"|"+s.key]
+			if !ok {
+				return "", false
+			}
+			// the guard the assumption names must still be there
+			guard := map[string]string{"expr.Expr|$2[0].(float64)": "expr.isFloat", "expr.Expr|$2[0].(int)": "expr.isInt"}[fnName(s.fn)+"|"+s.key]
+			for _, a := range atoms {
+				if a.Kind == "call" && a.Pos && a.Subj == guard && a.Val == "$2[0]" {
+					r.Assumptions = append(r.Assumptions, fnName(s.fn)+"|"+s.key+": "+reason)
+					return "ASSUMED:" + reason, true
+				}
+			}
+			return "", false
+		},
+	}
+}
+
+// payloadTypeOK: every in-module call that constructs a Wild/Regexp node passes a string payload.
+func (c *Ctx) payloadTypeOK() (bool, string) {
+	general := c.pkgFunc(pkgExpr, "Expr")
+	for _, f := range c.Funcs {
+		if !inLib(f) {
+			continue
+		}
+		for _, b := range f.Blocks {
+			for _, in := range b.Instrs {
+				call, ok := in.(*ssa.Call)
+				if !ok || call.Call.StaticCallee() == nil || fnPkgPath(call.Call.StaticCallee()) != pkgExpr {
+					continue
+				}
+				callee := call.Call.StaticCallee()
+				var ops []string
+				if callee == general {
+					if k, ok := c.resolve(call.Call.Args[1], nil).(*ssa.Const); ok {
+						ops = []string{c.constName(k)}
+					}
+				} else {
+					ops = c.ctorOperator(callee)
+				}
+				if len(ops) != 1 || (ops[0] != "expr.Wild" && ops[0] != "expr.Regexp") {
+					continue
+				}
+				if fnPkgPath(f) == pkgExpr && (f == callee || c.calls(f, general) && f.Signature.Params().Len() == 1 && len(c.ctorOperator(f)) == 1) {
+					continue // the thin constructor wrappers themselves (WILD(in any) → Expr(in, Wild))
+				}
+				arg := call.Call.Args[0]
+				st := arg.Type()
+				if mi, ok := arg.(*ssa.MakeInterface); ok {
+					st = mi.X.Type()
+				}
+				if !types.Identical(st, types.Typ[types.String]) {
+					return false, fmt.Sprintf("%s builds a %s leaf from a %s at %s", fnName(f), ops[0], typeStr(st), c.instrPos(in))
+				}
+			}
+		}
+	}
+	return true, ""
+}
+
+// ctorArgTypes: dynamic types that can reach value v (an element of the variadic `right` parameter,
+// or the `left` parameter) of the general constructor when called with the given operator constant,
+// following in-module call sites (and one more level through the thin constructors).
+func (c *Ctx) ctorArgTypes(general *ssa.Function, opConst string, v ssa.Value, depth int) (map[string]bool, bool) {
+	out := map[string]bool{}
+	// identify which parameter / element v is
+	k := c.key(v, nil)
+	type slot struct {
+		param int
+		elem  int // -1 = whole
+	}
+	var sl slot
+	switch {
+	case strings.HasPrefix(k, "$2[") && strings.HasSuffix(k, "]"):
+		var n int
+		if _, err := fmt.Sscanf(k, "$2[%d]", &n); err != nil {
+			return nil, false
+		}
+		sl = slot{2, n}
+	case k == "$0" || strings.HasPrefix(k, "phi{$0|") || strings.HasPrefix(k, "phi{expr.literalToExpr"):
+		sl = slot{0, -1}
+	default:
+		return nil, false
+	}
+	sites := 0
+	for _, f := range c.Funcs {
+		if !inLib(f) {
+			continue
+		}
+		for _, b := range f.Blocks {
+			for _, in := range b.Instrs {
+				call, ok := in.(*ssa.Call)
+				if !ok || call.Call.StaticCallee() != general {
+					continue
+				}
+				if kc, ok := c.resolve(call.Call.Args[1], nil).(*ssa.Const); !ok || c.constName(kc) != opConst {
+					if _, isConst := c.resolve(call.Call.Args[1], nil).(*ssa.Const); isConst {
+						continue
+					}
+					return nil, false // non-constant operator: any type may arrive
+				}
+				sites++
+				var arg ssa.Value
+				if sl.param == 0 {
+					arg = call.Call.Args[0]
+				} else {
+					lit, ok := c.sliceLiteral(call.Call.Args[2], nil)
+					if !ok || sl.elem >= len(lit) {
+						if isNilConst(c.resolve(call.Call.Args[2], nil)) {
+							continue // no operand passed: the branch is not reached with it
+						}
+						return nil, false
+					}
+					arg = lit[sl.elem]
+				}
+				if !c.valueTypes(arg, f, out, depth) {
+					return nil, false
+				}
+			}
+		}
+	}
+	return out, sites > 0
+}
+
+// valueTypes: dynamic types of an interface-typed value; a parameter of a thin constructor is
+// followed to that constructor's in-module call sites (one level).
+func (c *Ctx) valueTypes(v ssa.Value, in *ssa.Function, out map[string]bool, depth int) bool {
+	switch x := v.(type) {
+	case *ssa.MakeInterface:
+		out[typeStr(x.X.Type())] = true
+		return true
+	case *ssa.Parameter:
+		if depth > 1 {
+			return false
+		}
+		idx := -1
+		for i, p := range in.Params {
+			if p == x {
+				idx = i
+			}
+		}
+		sites := 0
+		for _, f := range c.Funcs {
+			if !inLib(f) {
+				continue
+			}
+			for _, b := range f.Blocks {
+				for _, ins := range b.Instrs {
+					call, ok := ins.(*ssa.Call)
+					if !ok || call.Call.StaticCallee() != in {
+						continue
+					}
+					sites++
+					arg := call.Call.Args[idx]
+					if in.Signature.Variadic() && idx == len(in.Params)-1 {
+						lit, ok := c.sliceLiteral(arg, nil)
+						if !ok {
+							return false
+						}
+						for _, el := range lit {
+							if !c.valueTypes(el, f, out, depth+1) {
+								return false
+							}
+						}
+						continue
+					}
+					if !c.valueTypes(arg, f, out, depth+1) {
+						return false
+					}
+				}
+			}
+		}
+		return sites > 0
+	case *ssa.UnOp:
+		// element of a variadic parameter: power[0]
+		if ia, ok := x.X.(*ssa.IndexAddr); ok {
+			if p, ok := ia.X.(*ssa.Parameter); ok {
+				if st, ok := p.Type().Underlying().(*types.Slice); ok {
+					if _, isIface := st.Elem().Underlying().(*types.Interface); !isIface {
+						out[typeStr(st.Elem())] = true
+						return true
+					}
+				}
+			}
+		}
+	}
+	if _, isIface := v.Type().Underlying().(*types.Interface); !isIface {
+		out[typeStr(v.Type())] = true
+		return true
+	}
+	return false
+}
+
+// rulePHLINEARcore: the part of PH-LINEAR that INV-PH needs (serialiser leaves pair ? with one parameter).
+func rulePHLINEARcore(c *Ctx, r *Report) {
+	dr := c.driverRoles()
+	if dr.Err != "" {
+		r.bad("PH-LINEAR", "anchor", "-", dr.Err)
+		return
+	}
+	rows, _ := c.successSkeletons(dr.SerParam)
+	for _, row := range rows {
+		typ := "default"
+		for _, a := range row.P.Atoms {
+			if a.Kind == "type" && a.Pos && a.Subj == "$1" {
+				typ = a.Val
+			}
+		}
+		if typ == "*expr.Expression" || typ == "[]*expr.Expression" || typ == "*expr.RangeBoundary" || hasAtom(row.P.Atoms, "$1==nil") {
+			continue
+		}
+		params := c.key(row.P.Ret.Results[1], row.P.Env)
+		q := strings.Count(row.Str, "?")
+		np := 0
+		if params != "nil" {
+			if strings.HasPrefix(params, "[") && strings.HasSuffix(params, "]") && !strings.Contains(params, ",") {
+				np = 1
+			} else {
+				np = -1
+			}
+		}
+		if q != np {
+			r.bad("PH-LINEAR", "serialiser|"+typ, c.instrPos(row.P.Ret), "placeholders and parameters out of step")
+		}
+	}
 }
